@@ -75,7 +75,7 @@ Section WithFns.
       (if prefixb partial k then
          [[DASH; DASH] ++ k ++ (match os_kind sp with KBool => [] | _ => [61] end)]
        else []) ++
-      (if contains_byte 61 partial && prefixb k partial then
+      (if prefixb (k ++ [61]) partial then
          let cand e := [DASH; DASH] ++ k ++ [61] ++ e in
          List.map (render t) (List.filter (fun c => prefixb w c) (List.map cand (os_suggested sp))) ++
          match os_sfn sp with
@@ -84,10 +84,12 @@ Section WithFns.
          end
        else []).
 
-  (* which entries touch lastOpt: the last of them in table order decides the single-candidate hint *)
+  (* which entries touch lastOpt.  The value branch fires only for the key written before the `=`
+     (api.go: strings.HasPrefix(partialOption, k+"=")), so at most one entry can decide the
+     single-candidate hint (CompleteLemmas.option_completions_order_independent) *)
   Definition touches (partial : str) (k : str) : bool :=
     negb (str_eqb k [DASH]) &&
-    (prefixb partial k || (contains_byte 61 partial && prefixb k partial)).
+    (prefixb partial k || prefixb (k ++ [61]) partial).
 
   Definition last_opt (tbl : list (str * nat)) (partial : str) : option ospec :=
     List.fold_left (fun acc kv => if touches partial (fst kv) then nth_error specs (snd kv) else acc) tbl None.
